@@ -9,10 +9,11 @@ They hold for **every** reference datetime `R` whose date is a valid date of 000
 `mondayOrd n` is the ordinal of the Monday of the ISO week containing ordinal `n`; days of one Monday-to-Sunday block
 share ISO year and ISO week number (`Cal.isoCalendar_same_week`). Helper lemmas: `RTV/Lemmas/Cal.lean`, `DateUtils.lean`.
 
-One statement of the property fails on the faithful model: `next month` from a day that does not exist in the next
-month (with the roll-forward semantics of `datedelta`). It is kept below as a comment, proved with its exact guard
-(`month_period_partial`), refuted by a concrete witness (`next_month_fails_on_day_overflow`) and proved in full for
-the repaired variant (`month_period_fixed`).
+`next month` used to fail from a day that does not exist in the next month; it was fixed in /repo (d8aa8bf73) and the
+model mirrors the fixed code (`month_period_fixed`, full statement); the pre-fix variant, its guard and the witness
+2020-01-31 are kept as a labelled regression. Round 2 adds hours/minutes/seconds, the early/mid/late prefixes, weekend,
+year/month to date and `rest of …`; two of those statements fail on the faithful model (weekend TIMEX year at a year
+boundary, past value of `month to date`) and carry partial theorems + witnesses.
 -/
 namespace RTV.DateUtils
 open RTV.Cal RTV.Py
@@ -202,52 +203,273 @@ theorem year_period (R : DateTime) (hv : R.date.valid = true) (k : Int) (t : Str
 example : yearPeriod ⟨⟨2020, 2, 29⟩, 7⟩ 1 = some (ofString "2021", ⟨⟨2021, 1, 1⟩, 0⟩, ⟨⟨2022, 1, 1⟩, 0⟩) := by decide
 example : yearPeriod ⟨⟨2020, 2, 29⟩, 7⟩ (-1) = some (ofString "2019", ⟨⟨2019, 1, 1⟩, 0⟩, ⟨⟨2020, 1, 1⟩, 0⟩) := by decide
 
-/-! ## this / next / last month
+/-! ## this / next / last month -/
 
-Full statement (FAILS on the faithful model, see `next_month_fails_on_day_overflow`):
-  `monthPeriod R k = some (t, b, e) → (Y, M) = shiftMonth R.y R.m k → t = "YYYY-MM" ∧ b = 1st of (Y, M) ∧
-   e = 1st of the month after`, for every `R` and `k`.
-The code reads the month off `reference + datedelta(months=k)`; for `k > 0` a reference day that does not exist in
-the target month rolls forward into the month after it. -/
-
-/-- Holds exactly under the guard "`k ≤ 0`, or the reference's day exists in the target month". -/
-theorem month_period_partial (R : DateTime) (hv : R.date.valid = true) (k : Int) (t : Str) (b e : DateTime)
-    (h : monthPeriod R k = some (t, b, e))
-    (g : k ≤ 0 ∨ R.date.d ≤ daysInMonth (shiftMonth R.date.y R.date.m k).1.toNat (shiftMonth R.date.y R.date.m k).2) :
-    ∃ Y M Y2 M2 : Nat, ((Y : Int), M) = shiftMonth R.date.y R.date.m k ∧ ((Y2 : Int), M2) = shiftMonth Y M 1 ∧
-      t = pad 4 Y ++ [45] ++ pad 2 M ∧ b = ⟨⟨Y, M, 1⟩, 0⟩ ∧ e = ⟨⟨Y2, M2, 1⟩, 0⟩ := by
-  obtain ⟨Y, M, Y2, M2, h1, h2, h3, h4, h5, _⟩ := monthPeriod_spec R hv k t b e h g
-  exact ⟨Y, M, Y2, M2, h1, h2, h3, h4, h5⟩
-
-/-- Negative witness: `next month` asked on 2020-01-31 answers March 2020, not February. -/
-theorem next_month_fails_on_day_overflow :
-    monthPeriod ⟨⟨2020, 1, 31⟩, 0⟩ 1 = some (ofString "2020-03", ⟨⟨2020, 3, 1⟩, 0⟩, ⟨⟨2020, 4, 1⟩, 0⟩) ∧
-    shiftMonth 2020 1 1 = (2020, 2) := by decide
-
-/-- The repaired variant (shift the first of the month) satisfies the full statement, for every `R` and `k`. -/
+/-- "this/next/last month" (any shift `k`) is `[1st of the shifted month, 1st of the month after)` with TIMEX
+`YYYY-MM`, for every reference — the code after `fix: 'next/last month' shifts from the first of the month`
+(`temp_date = reference.replace(day=1) + datedelta(months=swift)`). -/
 theorem month_period_fixed (R : DateTime) (hv : R.date.valid = true) (k : Int) (t : Str) (b e : DateTime)
-    (h : monthPeriodFixed R k = some (t, b, e)) :
+    (h : monthPeriod R k = some (t, b, e)) :
     ∃ Y M Y2 M2 : Nat, ((Y : Int), M) = shiftMonth R.date.y R.date.m k ∧ ((Y2 : Int), M2) = shiftMonth Y M 1 ∧
       t = pad 4 Y ++ [45] ++ pad 2 M ∧ b = ⟨⟨Y, M, 1⟩, 0⟩ ∧ e = ⟨⟨Y2, M2, 1⟩, 0⟩ := by
-  unfold monthPeriodFixed at h
+  unfold monthPeriod at h
   have hvy := (valid_iff R.date).1 hv
   have v1 := valid_first R.date.y R.date.m hvy.1 hvy.2.1 hvy.2.2.1 hvy.2.2.2.1
   have sr := shiftMonth_range R.date.y R.date.m k
   have ge := daysInMonth_ge (shiftMonth R.date.y R.date.m k).1.toNat (shiftMonth R.date.y R.date.m k).2 sr.1 sr.2
   obtain ⟨Y, M, Y2, M2, h1, h2, h3, h4, h5, _⟩ :=
-    monthPeriod_spec ⟨⟨R.date.y, R.date.m, 1⟩, R.secs⟩ v1 k t b e h (Or.inr (by simp only; omega))
+    monthPeriodPreFix_spec ⟨⟨R.date.y, R.date.m, 1⟩, R.secs⟩ v1 k t b e h (Or.inr (by simp only; omega))
   exact ⟨Y, M, Y2, M2, h1, h2, h3, h4, h5⟩
 
+example : monthPeriod ⟨⟨2020, 1, 31⟩, 0⟩ 1 = some (ofString "2020-02", ⟨⟨2020, 2, 1⟩, 0⟩, ⟨⟨2020, 3, 1⟩, 0⟩) := by decide
 example : monthPeriod ⟨⟨2020, 3, 31⟩, 0⟩ (-1) = some (ofString "2020-02", ⟨⟨2020, 2, 1⟩, 0⟩, ⟨⟨2020, 3, 1⟩, 0⟩) := by
   decide
 example : monthPeriod ⟨⟨2020, 12, 15⟩, 9⟩ 1 = some (ofString "2021-01", ⟨⟨2021, 1, 1⟩, 0⟩, ⟨⟨2021, 2, 1⟩, 0⟩) := by
   decide
-example : monthPeriodFixed ⟨⟨2020, 1, 31⟩, 0⟩ 1 = some (ofString "2020-02", ⟨⟨2020, 2, 1⟩, 0⟩, ⟨⟨2020, 3, 1⟩, 0⟩) := by
-  decide
+
+/-! ### REGRESSION (pre-fix code, before d8aa8bf73)
+
+The code used to read the month off `reference + datedelta(months=k)`; for `k > 0` a reference day that does not
+exist in the target month rolled forward into the month after it. Kept so that a revert is recognised. -/
+
+/-- The pre-fix code satisfied the statement only under "`k ≤ 0`, or the reference's day exists in the target
+month". -/
+theorem month_period_prefix_partial (R : DateTime) (hv : R.date.valid = true) (k : Int) (t : Str) (b e : DateTime)
+    (h : monthPeriodPreFix R k = some (t, b, e))
+    (g : k ≤ 0 ∨ R.date.d ≤ daysInMonth (shiftMonth R.date.y R.date.m k).1.toNat (shiftMonth R.date.y R.date.m k).2) :
+    ∃ Y M Y2 M2 : Nat, ((Y : Int), M) = shiftMonth R.date.y R.date.m k ∧ ((Y2 : Int), M2) = shiftMonth Y M 1 ∧
+      t = pad 4 Y ++ [45] ++ pad 2 M ∧ b = ⟨⟨Y, M, 1⟩, 0⟩ ∧ e = ⟨⟨Y2, M2, 1⟩, 0⟩ := by
+  obtain ⟨Y, M, Y2, M2, h1, h2, h3, h4, h5, _⟩ := monthPeriodPreFix_spec R hv k t b e h g
+  exact ⟨Y, M, Y2, M2, h1, h2, h3, h4, h5⟩
+
+/-- Regression witness: the pre-fix code answered March 2020 for `next month` asked on 2020-01-31. -/
+theorem next_month_prefix_regression :
+    monthPeriodPreFix ⟨⟨2020, 1, 31⟩, 0⟩ 1 = some (ofString "2020-03", ⟨⟨2020, 3, 1⟩, 0⟩, ⟨⟨2020, 4, 1⟩, 0⟩) ∧
+    shiftMonth 2020 1 1 = (2020, 2) := by decide
 
 /-! ## now -/
 
 /-- "now" resolves to the reference itself (past and future value). -/
 theorem now_is_reference (R : DateTime) : now R = (R, R) := rfl
+
+/-! # Round 2: hours / minutes / seconds, prefixes, weekend, to-date, rest-of -/
+
+/-! ## N hours | minutes | seconds ago / later (relative to the reference *time*) -/
+
+/-- "N hours ago", "in N minutes", "N seconds ago" …: the reference instant minus / plus N units, counted in
+seconds since 0001-01-01 00:00:00 (`ord * 86400 + secs`), for every N; TIMEX `YYYY-MM-DDTHH:MM:SS` of the value. -/
+theorem hms_ago_later (u : TUnit) (R : DateTime) (hv : R.date.valid = true) (n : Nat) (fut : Bool) (t : Str)
+    (v : DateTime) (h : getDateTimeResult u n R fut = some (t, v)) :
+    v.date.valid = true ∧ v.secs < 86400 ∧
+    (v.date.ord : Int) * 86400 + v.secs =
+      (R.date.ord : Int) * 86400 + R.secs + (n : Int) * (if fut then 1 else -1) * u.seconds ∧
+    t = luisDateTime v :=
+  getDateTimeResult_spec u R hv n fut t v h
+
+/-- N minutes = 60 N seconds, N hours = 3600 N seconds. -/
+theorem hms_units (R : DateTime) (n : Nat) (fut : Bool) :
+    getDateTimeResult .M n R fut = getDateTimeResult .S (60 * n) R fut ∧
+    getDateTimeResult .H n R fut = getDateTimeResult .S (3600 * n) R fut := by
+  unfold getDateTimeResult TUnit.seconds
+  simp only
+  constructor <;> (congr 2; cases fut <;> simp <;> omega)
+
+/-- The result exists exactly when it stays inside 0001-01-01..9999-12-31. -/
+theorem hms_defined (u : TUnit) (R : DateTime) (n : Nat) (fut : Bool)
+    (h1 : 86400 ≤ (R.date.ord : Int) * 86400 + R.secs + (n : Int) * (if fut then 1 else -1) * u.seconds)
+    (h2 : (R.date.ord : Int) * 86400 + R.secs + (n : Int) * (if fut then 1 else -1) * u.seconds < ((maxOrd : Int) + 1) * 86400) :
+    ∃ r, getDateTimeResult u n R fut = some r := by
+  obtain ⟨r, hr⟩ := addSeconds_isSome R _ h1 h2
+  exact ⟨(luisDateTime r, r), by unfold getDateTimeResult; simp only; rw [hr]; rfl⟩
+
+example : getDateTimeResult .H 3 ⟨⟨2020, 1, 29⟩, 52200⟩ false =
+    some (ofString "2020-01-29T11:30:00", ⟨⟨2020, 1, 29⟩, 41400⟩) := by decide
+example : getDateTimeResult .H 15 ⟨⟨2020, 12, 31⟩, 52200⟩ true =
+    some (ofString "2021-01-01T05:30:00", ⟨⟨2021, 1, 1⟩, 19800⟩) := by decide
+example : getDateTimeResult .S 30 ⟨⟨2020, 3, 1⟩, 10⟩ false =
+    some (ofString "2020-02-29T23:59:40", ⟨⟨2020, 2, 29⟩, 86380⟩) := by decide
+
+/-! ## early / mid / late this | next | last week -/
+
+/-- What the week branch computes with a prefix, for every reference and shift: early = `[Mon, Thu)`,
+mid = `[Tue, Sat)`, late = `[Thu, next Mon)` of the shifted week; for the *current* week (`k = 0`) an early period
+ends at the reference at the latest and a late period starts at the reference at the earliest
+(`weekPrefixBounds`). The TIMEX is the week's `YYYY-Www` (ISO year and week of the week's Monday). Note: "early
+this week" asked on the Monday gives begin = end (an empty range). -/
+theorem week_prefix_period (R : DateTime) (hv : R.date.valid = true) (k : Int) (early mid late : Bool) (t : Str)
+    (b e : DateTime) (h : weekPeriodP R k early mid late = some (t, b, e)) :
+    b.date.valid = true ∧ e.date.valid = true ∧ b.secs = R.secs ∧ e.secs = R.secs ∧
+    ((b.date.ord : Int), (e.date.ord : Int)) = weekPrefixBounds (mondayOrd R.date.ord) R.date.ord k early mid late ∧
+    (∃ mon : Date, mon.valid = true ∧ (mon.ord : Int) = mondayOrd R.date.ord + 7 * k ∧
+      t = pad 4 (isoCalendar mon).1 ++ [45, 87] ++ pad 2 (isoCalendar mon).2.1) :=
+  weekPeriodP_spec R hv k early mid late t b e h
+
+example : weekPrefixBounds 100 102 1 true false false = (107, 110) ∧ weekPrefixBounds 100 102 0 true false false = (100, 102) ∧
+    weekPrefixBounds 100 102 0 false true false = (101, 105) ∧ weekPrefixBounds 100 102 0 false false true = (103, 107) ∧
+    weekPrefixBounds 100 105 0 false false true = (105, 107) ∧ weekPrefixBounds 100 100 0 true false false = (100, 100) := by
+  decide
+example : weekPeriodP ⟨⟨2020, 1, 29⟩, 52200⟩ 1 true false false =
+    some (ofString "2020-W06", ⟨⟨2020, 2, 3⟩, 52200⟩, ⟨⟨2020, 2, 6⟩, 52200⟩) := by decide
+example : weekPeriodP ⟨⟨2020, 1, 29⟩, 52200⟩ 0 true false false =
+    some (ofString "2020-W05", ⟨⟨2020, 1, 27⟩, 52200⟩, ⟨⟨2020, 1, 29⟩, 52200⟩) := by decide
+example : weekPeriodP ⟨⟨2020, 1, 29⟩, 52200⟩ 0 false false true =
+    some (ofString "2020-W05", ⟨⟨2020, 1, 30⟩, 52200⟩, ⟨⟨2020, 2, 3⟩, 52200⟩) := by decide
+
+/-! ## this / next / last weekend -/
+
+/-- The weekend is `[Saturday, Monday)` of the shifted week. -/
+theorem weekend_is_saturday_to_monday (R : DateTime) (hv : R.date.valid = true) (k : Int) (t : Str) (b e : DateTime)
+    (h : weekendPeriod R k = some (t, b, e)) :
+    b.date.valid = true ∧ e.date.valid = true ∧ b.secs = R.secs ∧ e.secs = R.secs ∧
+    (b.date.ord : Int) = mondayOrd R.date.ord + 5 + 7 * k ∧ e.date.ord = b.date.ord + 2 := by
+  have s := weekendPeriod_spec R hv k t b e h
+  exact ⟨s.1, s.2.1, s.2.2.1, s.2.2.2.1, s.2.2.2.2.1, s.2.2.2.2.2.1⟩
+
+/- Full statement (FAILS, see `weekend_timex_fails_at_year_boundary`): the TIMEX is `YYYY-Www-WE` with the ISO year
+and ISO week of the Saturday. The code writes the *reference's calendar year*. -/
+
+/-- Holds when the reference's calendar year is the ISO year of the weekend's Saturday. -/
+theorem weekend_timex_partial (R : DateTime) (hv : R.date.valid = true) (k : Int) (t : Str) (b e : DateTime)
+    (h : weekendPeriod R k = some (t, b, e)) (g : (isoCalendar b.date).1 = R.date.y) :
+    t = pad 4 (isoCalendar b.date).1 ++ [45, 87] ++ pad 2 (isoCalendar b.date).2.1 ++ [45, 87, 69] := by
+  have s := weekendPeriod_spec R hv k t b e h
+  rw [g]; exact s.2.2.2.2.2.2
+
+/-- Negative witnesses: "next weekend" asked on 2020-12-31 → `2020-W01-WE` for 2021-01-09 (ISO 2021-W01);
+"this weekend" asked on 2021-01-03 → `2021-W53-WE` for 2021-01-02 (ISO 2020-W53). -/
+theorem weekend_timex_fails_at_year_boundary :
+    weekendPeriod ⟨⟨2020, 12, 31⟩, 0⟩ 1 = some (ofString "2020-W01-WE", ⟨⟨2021, 1, 9⟩, 0⟩, ⟨⟨2021, 1, 11⟩, 0⟩) ∧
+    isoCalendar ⟨2021, 1, 9⟩ = (2021, 1, 6) ∧
+    weekendPeriod ⟨⟨2021, 1, 3⟩, 0⟩ 0 = some (ofString "2021-W53-WE", ⟨⟨2021, 1, 2⟩, 0⟩, ⟨⟨2021, 1, 4⟩, 0⟩) ∧
+    isoCalendar ⟨2021, 1, 2⟩ = (2020, 53, 6) := by decide
+
+/-- The repaired variant (ISO year of the Saturday) satisfies the full statement. -/
+theorem weekend_timex_fixed (R : DateTime) (k : Int) (t : Str) (b e : DateTime)
+    (h : weekendPeriodFixed R k = some (t, b, e)) :
+    t = pad 4 (isoCalendar b.date).1 ++ [45, 87] ++ pad 2 (isoCalendar b.date).2.1 ++ [45, 87, 69] := by
+  unfold weekendPeriodFixed at h
+  cases hw : weekendPeriod R k with
+  | none => simp [hw] at h
+  | some r =>
+    simp only [hw, Option.map_some, Option.some.injEq, Prod.mk.injEq] at h
+    rw [← h.1, ← h.2.1]
+
+example : weekendPeriod ⟨⟨2020, 1, 29⟩, 52200⟩ 0 =
+    some (ofString "2020-W05-WE", ⟨⟨2020, 2, 1⟩, 52200⟩, ⟨⟨2020, 2, 3⟩, 52200⟩) := by decide
+
+/-! ## early / mid / late month and year -/
+
+/-- Month with a prefix (code after the fix): early = `[1st, 16th)`, late = `[16th, 1st of the next month)`, mid or
+no prefix = the whole month; TIMEX `YYYY-MM` of the shifted month, for every reference and shift. -/
+theorem month_prefix_period (R : DateTime) (hv : R.date.valid = true) (k : Int) (early late : Bool) (t : Str)
+    (b e : DateTime) (h : monthPeriodP R k early late = some (t, b, e)) :
+    ∃ Y M Y2 M2 : Nat, ((Y : Int), M) = shiftMonth R.date.y R.date.m k ∧ ((Y2 : Int), M2) = shiftMonth Y M 1 ∧
+      t = pad 4 Y ++ [45] ++ pad 2 M ∧
+      b = (if early then ⟨⟨Y, M, 1⟩, 0⟩ else if late then ⟨⟨Y, M, 16⟩, 0⟩ else ⟨⟨Y, M, 1⟩, 0⟩) ∧
+      e = (if early then ⟨⟨Y, M, 16⟩, 0⟩ else ⟨⟨Y2, M2, 1⟩, 0⟩) :=
+  monthPeriodP_spec R hv k early late t b e h
+
+/-- Year with a prefix: late starts on 1 July, early ends before 1 July; mid or no prefix = the whole year. -/
+theorem year_prefix_period (R : DateTime) (hv : R.date.valid = true) (k : Int) (early late : Bool) (t : Str)
+    (b e : DateTime) (h : yearPeriodP R k early late = some (t, b, e)) :
+    ∃ Y : Nat, (Y : Int) = R.date.y + k ∧ t = pad 4 Y ∧
+      b = (if late then ⟨⟨Y, 7, 1⟩, 0⟩ else ⟨⟨Y, 1, 1⟩, 0⟩) ∧
+      e = (if early then ⟨⟨Y, 7, 1⟩, 0⟩ else ⟨⟨Y + 1, 1, 1⟩, 0⟩) := by
+  obtain ⟨Y, h1, _, _, h2, h3, h4⟩ := yearPeriodP_spec R hv k early late t b e h
+  exact ⟨Y, h1, h2, h3, h4⟩
+
+example : monthPeriodP ⟨⟨2020, 1, 31⟩, 5⟩ 1 false true = some (ofString "2020-02", ⟨⟨2020, 2, 16⟩, 0⟩, ⟨⟨2020, 3, 1⟩, 0⟩) := by
+  decide
+example : monthPeriodP ⟨⟨2020, 1, 31⟩, 5⟩ 0 true false = some (ofString "2020-01", ⟨⟨2020, 1, 1⟩, 0⟩, ⟨⟨2020, 1, 16⟩, 0⟩) := by
+  decide
+example : yearPeriodP ⟨⟨2020, 2, 29⟩, 5⟩ (-1) false true = some (ofString "2019", ⟨⟨2019, 7, 1⟩, 0⟩, ⟨⟨2020, 1, 1⟩, 0⟩) := by
+  decide
+example : yearPeriodP ⟨⟨2020, 2, 29⟩, 5⟩ 1 true false = some (ofString "2021", ⟨⟨2021, 1, 1⟩, 0⟩, ⟨⟨2021, 7, 1⟩, 0⟩) := by
+  decide
+
+/-! ## year to date, month to date -/
+
+/-- "year to date" = `[1 January of R's year (midnight), R]`, TIMEX `YYYY`. -/
+theorem year_to_date (R : DateTime) (hv : R.date.valid = true) :
+    yearToDate R = (pad 4 R.date.y, ⟨⟨R.date.y, 1, 1⟩, 0⟩, R) := yearToDate_spec R hv
+
+/- Full statement for "month to date" (FAILS for the past value): both the future and the past value are
+`[1st of R's month, R]`. -/
+
+/-- What the code computes: TIMEX `YYYY-MM`; the *future* value starts on the 1st of the month; the *past* value
+starts on day number = month number at 01:00:00 (arguments `(year, month, month, 1)`), which is the 1st only in
+January. -/
+theorem month_to_date (R : DateTime) (hv : R.date.valid = true) :
+    monthToDate R = (pad 4 R.date.y ++ [45] ++ pad 2 R.date.m, ⟨⟨R.date.y, R.date.m, 1⟩, 0⟩,
+      ⟨⟨R.date.y, R.date.m, R.date.m⟩, 3600⟩, R) := monthToDate_spec R hv
+
+/-- Negative witness: "month to date" at 2020-05-20: the past value starts on 2020-05-05 01:00:00. -/
+theorem month_to_date_past_start_fails :
+    monthToDate ⟨⟨2020, 5, 20⟩, 52200⟩ =
+      (ofString "2020-05", ⟨⟨2020, 5, 1⟩, 0⟩, ⟨⟨2020, 5, 5⟩, 3600⟩, ⟨⟨2020, 5, 20⟩, 52200⟩) := by decide
+
+/-! ## rest of the week | month | year
+
+What the code computes (C10/C11 record the shape): begin = the reference; end = the *inclusive* last day (Sunday of
+R's week with R's time of day; last day of R's month / 31 December at midnight); TIMEX `(begin,end,P<n>D)` where `n`
+is `end − begin` in days for the week but `end − begin + 1` for month and year. -/
+
+theorem rest_of_week (R : DateTime) (hv : R.date.valid = true) (res : Option (Str × DateTime × DateTime))
+    (h : restOf .W R = some res) :
+    ∃ e : DateTime, e.date.valid = true ∧ e.secs = R.secs ∧ e.date.ord = mondayOrd R.date.ord + 6 ∧
+      R.date.ord ≤ e.date.ord ∧
+      res = some (ofString "(" ++ luisDateOf R ++ ofString "," ++ luisDateOf e ++ ofString ",P" ++
+                    natStr (e.date.ord - R.date.ord) ++ ofString "D)", R, e) :=
+  restOf_week_spec R hv res h
+
+theorem rest_of_month (R : DateTime) (hv : R.date.valid = true) :
+    let E : DateTime := ⟨⟨R.date.y, R.date.m, daysInMonth R.date.y R.date.m⟩, 0⟩
+    E.date.valid = true ∧ R.date.d ≤ daysInMonth R.date.y R.date.m ∧
+    restOf .MON R = some (if R ≠ E then
+        some (ofString "(" ++ luisDateOf R ++ ofString "," ++ luisDateOf E ++ ofString ",P" ++
+                natStr (daysInMonth R.date.y R.date.m - R.date.d + 1) ++ ofString "D)", R, E)
+      else none) := by
+  intro E
+  have s := restOf_month_spec R hv
+  have hvy := (valid_iff R.date).1 hv
+  refine ⟨s.2.2, hvy.2.2.2.2.2, ?_⟩
+  rw [s.1, restOfFin_nonneg _ _ _ _ s.2.1]
+  have dt : ((daysInMonth R.date.y R.date.m : Int) - (R.date.d : Int) + 1).toNat =
+      daysInMonth R.date.y R.date.m - R.date.d + 1 := by omega
+  rw [dt]
+  simp only [Bool.false_eq_true, or_false]
+  rfl
+
+theorem rest_of_year (R : DateTime) (hv : R.date.valid = true) :
+    let E : DateTime := ⟨⟨R.date.y, 12, 31⟩, 0⟩
+    E.date.valid = true ∧ R.date.ord ≤ E.date.ord ∧
+    restOf .Y R = some (if R ≠ E then
+        some (ofString "(" ++ luisDateOf R ++ ofString "," ++ luisDateOf E ++ ofString ",P" ++
+                natStr (E.date.ord - R.date.ord + 1) ++ ofString "D)", R, E)
+      else none) := by
+  intro E
+  have s := restOf_year_spec R hv
+  refine ⟨s.2.2, s.2.1, ?_⟩
+  rw [s.1, restOfFin_nonneg _ _ _ _ (by have := s.2.1; omega)]
+  have dt : (((⟨R.date.y, 12, 31⟩ : Date).ord : Int) - (R.date.ord : Int) + 1).toNat =
+      (⟨R.date.y, 12, 31⟩ : Date).ord - R.date.ord + 1 := by have := s.2.1; omega
+  rw [dt]
+  simp only [Bool.false_eq_true, or_false]
+  rfl
+
+/-- Witnesses of the shape: Wednesday 2020-01-29 → week `P4D` up to Sunday 02-02 (5 days inclusive), month `P3D` up
+to 01-31 (3 days inclusive); on the last day of the month at 00:00:00 there is no result, with a time of day the
+range is `[31st, 31st]`. -/
+theorem rest_of_witnesses :
+    restOf .W ⟨⟨2020, 1, 29⟩, 52200⟩ =
+      some (some (ofString "(2020-01-29,2020-02-02,P4D)", ⟨⟨2020, 1, 29⟩, 52200⟩, ⟨⟨2020, 2, 2⟩, 52200⟩)) ∧
+    restOf .MON ⟨⟨2020, 1, 29⟩, 52200⟩ =
+      some (some (ofString "(2020-01-29,2020-01-31,P3D)", ⟨⟨2020, 1, 29⟩, 52200⟩, ⟨⟨2020, 1, 31⟩, 0⟩)) ∧
+    restOf .MON ⟨⟨2021, 1, 31⟩, 0⟩ = some none ∧
+    restOf .MON ⟨⟨2021, 1, 31⟩, 36000⟩ =
+      some (some (ofString "(2021-01-31,2021-01-31,P1D)", ⟨⟨2021, 1, 31⟩, 36000⟩, ⟨⟨2021, 1, 31⟩, 0⟩)) ∧
+    restOf .W ⟨⟨2021, 1, 3⟩, 0⟩ =
+      some (some (ofString "(2021-01-03,2021-01-03,P0D)", ⟨⟨2021, 1, 3⟩, 0⟩, ⟨⟨2021, 1, 3⟩, 0⟩)) := by
+  refine ⟨?_, ?_, ?_, ?_, ?_⟩ <;> decide
 
 end RTV.DateUtils
